@@ -1,7 +1,7 @@
 (* Correspondence glue: for each property, a function from (case input, observed
    implementation output) to a pair (model mismatches, spec failures).  These are the
    definitions the extracted driver runs; no theorem depends on them. *)
-From GF Require Import Base.Lit Base.Int64 Model.Range Spec.RangeSpec.
+From GF Require Import Base.Lit Base.Int64 Model.Range Spec.RangeSpec Model.BucketName Spec.NameSpec Proofs.NameProofs.
 Open Scope string_scope.
 Open Scope list_scope.
 Open Scope Z_scope.
@@ -49,3 +49,31 @@ Definition c11_spec (hdr data : bytes) (status : Z) (code cr cl body : bytes) (p
   | HNone => expect (ok_status status && beq body data) "no-range-whole-body"
   | HNotImplemented => expect (negb (ok_status status) || beq body data) "multi-range"
   end.
+
+(* C17 --------------------------------------------------------------------- *)
+Definition c17_direct_model (name : bytes) (accepted : bool) : list bytes :=
+  expect (Bool.eqb (validate name) accepted) "validate".
+Definition c17_direct_spec (name : bytes) (accepted : bool) : list bytes :=
+  expect (Bool.eqb (valid name) accepted) "documented-rule".
+
+(* PUT /<name>: returns new model state and mismatches *)
+Definition c17_put_model (existing : list bytes) (name : bytes) (status : Z) (code : bytes)
+  : list bytes * list bytes :=
+  let '(st', ok) := create_bucket existing name in
+  (st',
+   if ok then expect (status =? 200) "status"
+   else if validate name
+        then expect ((status =? 409) && beq code (B "BucketAlreadyExists")) "expected-409-BucketAlreadyExists"
+        else expect ((status =? 400) && beq code (B "InvalidBucketName")) "expected-400-InvalidBucketName").
+
+Definition c17_put_spec (existing : list bytes) (name : bytes) (status : Z) (code : bytes) : list bytes :=
+  if valid name then
+    if existsb (beq name) existing then expect (negb (ok_status status)) "duplicate-accepted"
+    else expect (ok_status status) "valid-name-refused"
+  else expect ((status =? 400) && beq code (B "InvalidBucketName")) "invalid-name-not-refused-with-InvalidBucketName".
+
+Fixpoint subset (a b : list bytes) : bool :=
+  match a with [] => true | x :: a' => existsb (beq x) b && subset a' b end.
+Definition c17_list_check (existing listed : list bytes) : list bytes :=
+  expect (subset listed existing) "lists-a-bucket-never-created" ++
+  expect (subset existing listed) "created-bucket-not-listed".
